@@ -174,6 +174,13 @@ MPT_STRUCT(refcount)
 #ifdef __cplusplus
 	inline refcount(uintptr_t ref = 1) : _val(ref)
 	{ }
+	/* count belongs to the object, not to its content: a copy starts with a single owner */
+	inline refcount(const refcount &) : _val(1)
+	{ }
+	inline refcount & operator =(const refcount &)
+	{
+		return *this;
+	}
 	uintptr_t raise();
 	uintptr_t lower();
 	
